@@ -179,3 +179,32 @@ Theorem C16_fill_closure_panic : forall k j dst i sc,
   frun dst j i sc = (List.app (filled dst k i) [e_ask (i + N.of_nat k)], i + N.of_nat k, true).
 Proof. exact frun_panics_at. Qed.
 Print Assumptions C16_fill_closure_panic.
+
+(* ---------- Vec::extend_with (behind Vec::resize) as /repo's source has it: the whole function body
+   translated by tools/rs2v.py on every run (LeafActual.src_procs, ExtendWalkOk.v).  For every n,
+   vector and script of returning / panicking clones the translated procedure is the function
+   xwhole: reserve first; n - 1 times a clone, its store through the pointer, the pointer one on, and
+   only then the guard's length one up; last the value itself.  When the (k+1)-th clone panics:
+   exactly k stores, at the k addresses after the old contents, and exactly k increments — the
+   vector owns the old contents and the k clones, as VecPanic.resize_clone_panic has it ---------- *)
+From BV Require Import ExtendWalkOk.
+Theorem C16_source_extend_with : forall len base n tr sc f, base + len + n < W ->
+  (N.to_nat n <= List.length sc)%nat ->
+  let '(t, q, b, rest) := xwhole len base n sc in
+  exec src_fns (S (S (S (S (S (S (S (S (S f))))))))) (xenv0 len base n) tr sc xproc =
+  if b then XPanic (xenv len base n q) (List.app tr t) else XOk (xenv len base n q) (List.app tr t) rest.
+Proof. exact proc_is_xwhole. Qed.
+
+Theorem C16_extend_with_clone_panic : forall k j p sc,
+  (k < j)%nat -> forallb ExtendWalkOk.returns (firstn k sc) = true -> nth k sc (Some true) = None ->
+  xrun j p sc = (List.app (cloned k p) [e_next], p + N.of_nat k, true, skipn (S k) sc) /\
+  count "write" (cloned k p) = k /\ count "increment_len" (cloned k p) = k /\
+  map (fun e : effect => snd e) (filter (fun e : effect => String.eqb (fst e) "write") (cloned k p))
+    = map (fun i => [VN (p + N.of_nat i)]) (seq 0 k).
+Proof.
+  intros k j p sc H1 H2 H3. split; [apply xrun_panics_at; assumption|].
+  destruct (cloned_counts k p) as (A & B & _ & D). auto.
+Qed.
+
+Print Assumptions C16_source_extend_with.
+Print Assumptions C16_extend_with_clone_panic.
